@@ -348,6 +348,10 @@ def run(R):
     R.rule("C16-R4", "keyword case never reaches the tree: the text matched by the case-insensitive keyword helper (whose letter case is "
                      "the user's) is only tested or skipped; it never flows into a value a parser returns - parsers put canonical "
                      "literals into the syntax tree")
+    R.rule("C16-R6", "a measured recogniser stops where its token stops: when a caller computes an operand's source text from the length of the "
+                     "remainder a sub-parser returns (`start[..start.len() - rest.len()]`), that sub-parser - and every parser whose remainder it "
+                     "passes on - must return the remainder right after the last thing it consumed, never the result of the blank/comment "
+                     "skipper: otherwise a trailing `# comment` becomes part of the operand text (comment-dependent tree)")
     R.rule("C16-R5", "nothing parsed is discarded: whatever a sub-parser of parser.rs returns as its payload flows into the value the "
                      "calling parser returns (or decides a branch); a payload may be ignored only by a recogniser that returns the "
                      "consumed source slice computed from the remainder (`input[..input.len() - rest.len()]`). A modifier or pattern "
@@ -365,6 +369,7 @@ def run(R):
     r3(R, bodies)
     r4(R, bodies)
     r5(R)
+    r6(R)
 
 
 def certify(R, prog, bodies, rule):
@@ -796,3 +801,117 @@ def r5(R):
     R.ob("C16-R5", "sites", "sub-parser call sites whose payload is kept or legitimately measured (%d sites, %d audited exceptions)" % (nsites, len(used_exc)),
          True)
     R.floor("C16-R5", "sub-parser call sites in parser.rs", nsites, 100)
+
+
+# ---------------------------------------------------------------- R6 measured recognisers do not return skipped remainders
+
+def _returned_remainder_locals(b):
+    """named locals that supply the remainder component of an Ok((rem, payload)) return"""
+    out = set()
+    for bb, i, pl, rv, st in b.assigns():
+        if pl["l"] != 0 or pl["p"] or rv["rv"] != "aggregate" or rv.get("variant") != "Ok" or not rv["ops"]:
+            continue
+        o = b.origin(rv["ops"][0], stop_named=False)
+        tup = o[1] if o[0] == "rv" else None
+        if tup is None and o[0] == "place":
+            d = b.single_def(o[1]["l"])
+            tup = d[3] if d and d[0] == "assign" else None
+        if tup is not None and tup["rv"] == "aggregate" and tup.get("ak") == "tuple" and tup["ops"]:
+            r = b.origin(tup["ops"][0], stop_named=True)
+            if r[0] == "place":
+                out.add(r[1]["l"])
+    return out
+
+
+def r6(R):
+    prog = R.prog
+    scope = {b.key: b for b in prog.bodies.values() if b.crate == "kolibrie" and b.file.endswith("parser.rs") and "::tests::" not in b.key and not b.is_closure}
+
+    def is_parser(b):
+        rt = b.local_ty(0)
+        return rt.startswith("core::result::Result<(&") and "nom::internal::Err" in rt
+    measured = set()
+    for b in scope.values():
+        for x in prog.family(b.key):
+            for c in x.calls():
+                if c.key in scope and is_parser(scope[c.key]) and c.name() not in _TOKENS and _remainder_len_idiom(x, c):
+                    measured.add(c.key)
+    R.floor("C16-R6", "sub-parsers whose remainder is measured by a caller", len(measured), 3)
+    # closure: parsers whose remainder a measured parser hands on
+    work = list(measured)
+    closed = set()
+    while work:
+        k = work.pop()
+        if k in closed:
+            continue
+        closed.add(k)
+        b = scope[k]
+        rems = _returned_remainder_locals(b)
+        for c in b.calls():
+            if c.key in scope and is_parser(scope[c.key]) and c.key not in closed:
+                # does component 0 of c's result reach a returned remainder local?
+                m, e, ret = keyword_flows(prog, b, {c.dest["l"]}, set(), {})
+                if ret:
+                    work.append(c.key)
+                    continue
+                for l in _remainder_targets(b, c):
+                    if l in rems:
+                        work.append(c.key)
+    n = 0
+    for k in sorted(closed):
+        b = scope[k]
+        R.saw(b)
+        rems = _returned_remainder_locals(b)
+        bad = []
+        for l in rems:
+            for d in b.defs().get(l, []):
+                if d[0] == "call" and d[2].name() == "sparql_skip_ws":
+                    # a leading skip at function entry (before anything was consumed) is the caller's start point, not a trailing skip
+                    if not any(x.bb != d[2].bb and b.dominates(x.bb, d[2].bb) and x.key in scope and is_parser(scope[x.key]) for x in b.calls()):
+                        continue
+                    bad.append(d[2].ln)
+                elif d[0] == "assign" and d[3]["rv"] == "use":
+                    o = b.origin(d[3]["op"], stop_named=False)
+                    if o[0] == "call" and o[1].name() == "sparql_skip_ws":
+                        if any(x.bb != o[1].bb and b.dominates(x.bb, o[1].bb) and x.key in scope and is_parser(scope[x.key]) for x in b.calls()):
+                            bad.append(o[1].ln)
+        n += 1
+        R.ob("C16-R6", "stops-at-token:" + b.name, "%s returns the remainder right after what it consumed (not a blank/comment-skipped one)" % b.name, not bad,
+             where=b.where(bad[0] if bad else None), detail=None if not bad else "the caller slices the operand text up to this remainder: blanks are trimmed away, "
+             "but a `#` comment after the operand becomes part of the stored text (`30      # adults only`), so comments change the tree and the answers")
+    R.floor("C16-R6", "measured recognisers (closure)", n, 3)
+
+
+def _remainder_targets(b, call):
+    """named locals that receive component 0 (the remainder) of a sub-parser call's result"""
+    out = set()
+    work = [call.dest["l"]]
+    seen = set()
+    while work:
+        l = work.pop()
+        if l in seen:
+            continue
+        seen.add(l)
+        for (bb, where, kind, pl) in b.uses().get(l, []):
+            if pl is None or where[0] != "st":
+                if where[0] == "term" and pl is not None:
+                    c = next((x for x in b.calls() if x.bb == bb), None)
+                    if c is not None and c.name() in _TRANSPARENT and not c.dest["p"] and _tuple_component(pl) is None:
+                        work.append(c.dest["l"])
+                continue
+            if any(e["k"] == "downcast" and e.get("n") in ("Break", "Err", "None") for e in pl["p"]):
+                continue
+            st = b.blocks[bb]["st"][where[1]]
+            if st["rv"]["rv"] == "discriminant":
+                continue
+            comp = _tuple_component(pl)
+            if comp == 0:
+                dst = st["pl"]["l"]
+                out.add(dst)
+                # plain copies into a named cursor
+                for bb2, i2, pl2, rv2, st2 in b.assigns():
+                    if not pl2["p"] and rv2["rv"] == "use" and F.op_place(rv2["op"]) is not None and F.op_place(rv2["op"])["l"] == dst and not F.op_place(rv2["op"])["p"]:
+                        out.add(pl2["l"])
+            elif comp is None:
+                work.append(st["pl"]["l"])
+    return out
